@@ -4,39 +4,93 @@ import collections
 from ._util import verdict_stats as _verdict_stats
 
 
+def _dec(tok):
+    if tok == "%":
+        return ""
+    out, i = [], 0
+    while i < len(tok):
+        if tok[i] == "%" and i + 2 < len(tok) + 0 and i + 3 <= len(tok):
+            try:
+                out.append(chr(int(tok[i + 1:i + 3], 16)))
+                i += 3
+                continue
+            except ValueError:
+                pass
+        out.append(tok[i])
+        i += 1
+    return "".join(out)
+
+
+def _entries_of_cfg(toks):
+    """(host, stored url) of every `sec` group whose url parsed (may include skipped ones: an upper bound)."""
+    ents, i = [], 2
+    while i + 10 < len(toks) + 1 and i < len(toks) and toks[i] == "sec":
+        if toks[i + 3] == "1" and _dec(toks[i + 7]) != "":
+            ents.append((_dec(toks[i + 5]), _dec(toks[i + 4])))
+        i += 11
+    return ents
+
+
 def c13_stats(cases, model):
     ops = collections.Counter()
     outcomes = collections.Counter()
     modes = collections.Counter()
     accepted = collections.Counter()
-    lens = []
-    reloads_per_case = []
-    hosts_shared = 0
+    lens, muts_per_case = [], []
+    shared_hosts = 0          # configurations / key maps with >= 2 entries on one host
+    order_sensitive = 0       # lookups matched by >= 2 entries of the final configuration (order decides)
+    dot_probes = 0
     for c in cases:
         lens.append(len(c["ops"]))
         if c["ops"]:
             modes[c["ops"][0]] += 1
         n_mut = 0
+        cur = []              # static: entries of the last configuration; etcd: dict key -> (host, url)
+        kv = {}
         for o, i in zip(c["ops"], c.get("impl") or []):
-            k = o.split(" ", 1)[0]
+            f = o.split(" ")
+            k = f[0]
             ops[k] += 1
+            if k in ("load", "reload"):
+                cur = _entries_of_cfg(f[1:])
+                hosts = collections.Counter(h for h, _ in cur)
+                if hosts and max(hosts.values()) >= 2:
+                    shared_hosts += 1
+            elif k == "put" and len(f) == 13:
+                if f[2] == "1" and f[4] == "1" and _dec(f[3]) and _dec(f[8]):
+                    kv[f[1]] = (_dec(f[6]), _dec(f[5]))
+                else:
+                    kv.pop(f[1], None)
+                cur = list(kv.values())
+                hosts = collections.Counter(h for h, _ in cur)
+                if hosts and max(hosts.values()) >= 2:
+                    shared_hosts += 1
+            elif k == "del" and len(f) == 2:
+                kv.pop(f[1], None)
+                cur = list(kv.values())
             if k in ("reload", "put", "del"):
                 n_mut += 1
             if i.startswith("chain="):
                 a = i.split(" ")[0][6:]
-                if k == "probe":
+                if k == "probe" and len(f) == 6:
                     accepted["accepted" if a != "-" else "rejected"] += 1
+                    host, url = _dec(f[2]), _dec(f[3])
+                    if f[4] == "1":
+                        dot_probes += 1
+                    if sum(1 for h, u in cur if h == host and url.startswith(u)) >= 2:
+                        order_sensitive += 1
                 outcomes["answer"] += 1
             else:
                 outcomes[i.split(":", 1)[0]] += 1
-        reloads_per_case.append(n_mut)
+        muts_per_case.append(n_mut)
         if any(o.startswith("racebegin") for o in c["ops"]):
             modes["concurrent"] += 1
     return dict(verdicts=_verdict_stats(cases, model), ops=dict(ops), impl_outcomes=dict(outcomes), modes=dict(modes),
-                lookups=dict(accepted), max_case_len=max(lens or [0]),
-                mean_case_len=round(sum(lens) / max(1, len(lens)), 1),
-                mean_mutations_per_case=round(sum(reloads_per_case) / max(1, len(reloads_per_case)), 1),
-                max_mutations_per_case=max(reloads_per_case or [0]))
+                lookups=dict(accepted), lookups_where_entry_order_decides=order_sensitive, lookups_with_dot_segments=dot_probes,
+                mutations_leaving_a_shared_host=shared_hosts,
+                max_case_len=max(lens or [0]), mean_case_len=round(sum(lens) / max(1, len(lens)), 1),
+                mean_mutations_per_case=round(sum(muts_per_case) / max(1, len(muts_per_case)), 1),
+                max_mutations_per_case=max(muts_per_case or [0]))
 
 
 def c13_nontrivial(c, ms):
@@ -51,11 +105,11 @@ def c13_nontrivial(c, ms):
 CONFIG = dict(
     modules=["SigModel.Props.C13"],
     theorems=["SigModel.Backends." + t for t in [
-        "C13_reload_eq_fresh", "C13_reload_total", "C13_reload_chain_total", "C13_static_answers_from_final",
+        "C13_reload_eq_fresh", "C13_reload_total", "C13_reload_chain_total", "C13_reload_path_audit", "C13_static_answers_from_final",
         "C13_static_configured_accepted", "C13_legacy_upsert_panics", "C13_legacy_order_differs",
         "C13_etcd_eq_fresh", "C13_etcd_eq_fresh_sorted", "C13_etcd_answers_from_final",
         "C13_etcd_deleted_not_accepted", "C13_etcd_moved_not_accepted",
-        "C13_facts", "C13_scheme_rule", "C13_static_meets_spec", "C13_etcd_meets_spec",
+        "C13_facts", "C13_scheme_rule", "C13_lookup_reload_eq_fresh", "C13_static_meets_spec", "C13_etcd_meets_spec",
     ]] + ["SigModel.RWLock." + t for t in [
         "C13_lock_programs_flat", "C13_no_deadlock", "C13_api_no_deadlock", "C13_steps_bounded",
         "C13_always_completes", "C13_mutual_exclusion", "C13_nested_rlock_deadlocks",
